@@ -332,7 +332,7 @@ theorem prim_getElem (nn : List Val) (hprim : ∀ v ∈ nn, ∃ x, v = .prim x) 
     when the bitmap says so and to the `rank s`-th value otherwise. -/
 theorem loadLeaf_spec (t : Ty) (id : Nat) (nn : List Val) (b : Bitmap) (F : List Bool)
     (hR : Rep b F) (hcnt : F.count false = nn.length) (hprim : ∀ v ∈ nn, ∃ x, v = .prim x)
-    (hE : isEnumTy t = false) (hN : isNetTy t = false) (hnull : isNullTy t = true → nn = []) :
+    (hE : isEnumTy t = false) (hnull : isNullTy t = true → nn = []) :
     ∃ v, loadLeaf t (primEncode id true (nn.map Val.primBytes))
         (F.count true + (primEncode id true (nn.map Val.primBytes)).len) b = some v ∧
       vecType v = t ∧ SlotSpec v F nn := by
@@ -425,7 +425,10 @@ theorem loadLeaf_spec (t : Ty) (id : Nat) (nn : List Val) (b : Bitmap) (F : List
         have hz : F.count false = 0 := by rw [hcnt]; simpa [hc0] using hl.symm
         have := allTrue_of_count_false_zero F hz slot hs
         simp only [serialize, hget slot hs, hexp slot hs, this, if_true]
-      · simp only [hc0, if_false, hN, Bool.false_eq_true]
+      · have hNA : (isNetTy t && !netAllocated) = false := by
+          have : netAllocated = true := by decide
+          simp [this]
+        simp only [hc0, if_false, hNA, Bool.false_eq_true]
         have hfill := fillSlots_eq_place ([] : Bytes) F b 0 (nn.map Val.primBytes) hR.agrees
         refine ⟨_, rfl, rfl, by simp [Vec.len, hfill, place_length], ?_⟩
         intro slot hs
@@ -447,12 +450,12 @@ end Zed.Vng
 namespace Zed.Vng
 open Zed.Generated.C03
 
-/-! ### the flat fragment: primitives (no enum, no net), records, named types -/
+/-! ### the flat fragment: primitives (every primitive type; no enum), records, named types -/
 
 mutual
 /-- types of the fragment for which the vector path is proved below. -/
 def flatTy : Ty → Bool
-  | .prim id => id != 27
+  | .prim _ => true
   | .record fs => flatFields fs
   | .named _ t => flatTy t
   | _ => false
@@ -486,16 +489,12 @@ mutual
 theorem loadSpec_flat : ∀ t : Ty, flatTy t = true → LoadSpec t
   | .prim id, hflat => by
     intro vs P Fp hR hlen hconf
-    have hid : id ≠ 27 := by simpa [flatTy] using hflat
     obtain ⟨own, F, hload, hRF, hFl, hFc, hexp⟩ :=
       load_nullsWrap vs (.prim (.prim id) (primEncode id true ((nonNull vs).map Val.primBytes))) P Fp hR hlen
     have hprim : ∀ v ∈ nonNull vs, ∃ x, v = .prim x := fun v hv =>
       conforms_prim_nonnull (hconf v (mem_nonNull hv).1) (mem_nonNull hv).2
     obtain ⟨v, hv, hty, hlen', hspec⟩ := loadLeaf_spec (.prim id) id (nonNull vs) (flattenNulls P own) F hRF hFc hprim
-      rfl (by
-        unfold isNetTy; split
-        · rename_i h; cases h; exact absurd rfl hid
-        · rfl)
+      rfl
       (by
         intro hn
         have h29 : id = 29 := by
